@@ -267,7 +267,27 @@ pub fn expand(q: &QCase) -> Vec<Case> {
         }
     }
     let qrule = RuleSpec { idents: vec![("Q".to_string(), body)], cond };
-    let docs: Vec<_> = q.recipes.iter().map(|r| gen::build_doc(&qrule, r)).collect();
+    let mut docs: Vec<_> = q.recipes.iter().map(|r| gen::build_doc(&qrule, r)).collect();
+    // array fields whose elements satisfy different members: a member matches an array when some
+    // element does, so the quantifier has to combine hits across the elements
+    if (q.form == 0 || q.form == 3) && !is_block && !q.recipes.is_empty() {
+        let truths: Vec<crate::model::DocVal> = crate::spec::collect_leaves(&qrule)
+            .iter()
+            .filter(|l| l.field == base_field)
+            .enumerate()
+            .map(|(i, l)| {
+                let scalar = crate::spec::Leaf { modifier: KMod::None, ..l.clone() };
+                crate::spec::value_for(&scalar, true, (i * 2) as u8)
+            })
+            .filter(|v| !matches!(v, crate::model::DocVal::Arr(_)))
+            .collect();
+        if !truths.is_empty() {
+            let mk = |vals: Vec<crate::model::DocVal>| crate::model::DObj(vec![(base_field.to_string(), crate::model::DocVal::arr(vals))]);
+            docs.push(mk(truths.clone()));
+            docs.push(mk(truths.iter().rev().skip(1).cloned().collect()));
+            docs.push(mk(truths.iter().step_by(2).cloned().chain(std::iter::once(crate::model::DocVal::s("zz"))).collect()));
+        }
+    }
     let mut c = Case::new("c08.members");
     c.rules.push(qrule.text());
     for (i, m) in q.members.iter().enumerate() {
@@ -275,15 +295,6 @@ pub fn expand(q: &QCase) -> Vec<Case> {
         c.rules.push(mr.text());
         c.rules.push(mr.negated_text());
     }
-    // quantified key lists against array fields are not judged (documentation and engine
-    // disagree on whether one element has to satisfy all members)
-    let docs: Vec<_> = if q.form == 0 && q.quant != 0 && !is_block {
-        docs.into_iter()
-            .filter(|d| !matches!(d.get_val(base_field), Some(crate::model::DocVal::Arr(_))))
-            .collect()
-    } else {
-        docs
-    };
     c.docs = docs.clone();
     c.extra = json!({"quant": quant, "n": n, "form": q.form, "k": k});
     // cross-check of the quantified form against the reference
@@ -378,6 +389,7 @@ fn qcase() -> BoxedStrategy<QCase> {
 fn palette_cases(max_len: usize) -> Vec<Case> {
     let palette = ["a", "ab*", "*b", "*a*", "ib", "i*B*", "?a.b", "?^a", "''", "*"];
     let hays = ["", "a", "b", "ab", "ba", "acb", "B", "AB", "aab", "xyz"];
+    let hay_arrays: Vec<Vec<&str>> = vec![vec![], vec!["a", "b"], vec!["ab", "ba"], vec!["acb", "B"], vec!["", "xyz"], vec!["b", "AB", "a"]];
     let recipes: Vec<gen::DocRecipe> = vec![];
     let mut out = vec![];
     let mut lists: Vec<Vec<usize>> = vec![];
@@ -407,6 +419,12 @@ fn palette_cases(max_len: usize) -> Vec<Case> {
                         .iter()
                         .map(|h| crate::model::DObj(vec![("h".to_string(), crate::model::DocVal::s(h))]))
                         .chain(std::iter::once(crate::model::DObj::default()))
+                        .chain(hay_arrays.iter().map(|a| {
+                            crate::model::DObj(vec![(
+                                "h".to_string(),
+                                crate::model::DocVal::arr(a.iter().map(|h| crate::model::DocVal::s(h)).collect()),
+                            )])
+                        }))
                         .collect();
                     out.push(c);
                 }
